@@ -112,6 +112,7 @@ def check_source(sh, src, filename, rnd, k, origin):
         sh.count('skipped:analysis-crash-%s' % type(e).__name__)      # C08's subject
         return None
     base_ord = len(layout.name_token_ordinals(src))
+    base_names = layout.name_token_strings(src)
     for label, text, st in variants_of(src, rnd, k):
         if text is None:
             sh.count('variant-printer-failed')
@@ -119,9 +120,12 @@ def check_source(sh, src, filename, rnd, k, origin):
         if not layout.same_ast(src, text):
             sh.count('variant-discarded:different-ast:' + label)
             continue
-        if len(layout.name_token_ordinals(text)) != base_ord:
-            sh.count('variant-discarded:name-token-count:' + label)
-            continue
+        diags_only = False
+        if len(layout.name_token_ordinals(text)) != base_ord or layout.name_token_strings(text) != base_names:
+            # ast.unparse reordered tokens (f(k=1, *x) -> f(*x, k=1)): NAME-token ordinals cannot identify bindings across
+            # the two texts, but the diagnostics must still agree
+            sh.count('variant-compared-on-diagnostics-only:' + label)
+            diags_only = True
         nontrivial = label == 'unparse' or any(st.get(x) for x in ('broken', 'joined', 'oneliner'))
         sh.case(text, nontrivial, {'origin': origin, 'variant': label, 'transformations': st, 'text_head': text[:160]})
         sh.count('variants:' + label)
@@ -132,7 +136,7 @@ def check_source(sh, src, filename, rnd, k, origin):
             got = summary(text, filename)
         except Exception as e:
             return ('variant-crashes:%s' % type(e).__name__, 'analysis of the variant raised %r' % (e,), text)
-        diff = compare(base, got)
+        diff = compare((base[0], []), (got[0], [])) if diags_only else compare(base, got)
         if diff:
             return (diff[0] + ':' + label, diff[1], text)
     return None
@@ -219,7 +223,10 @@ def replay(case):
     fn = case.get('filename') or suppview.filename_for(False)
     if not layout.same_ast(case['src'], case['variant']):
         return []
-    d = compare(summary(case['src'], fn), summary(case['variant'], fn))
+    a, b = summary(case['src'], fn), summary(case['variant'], fn)
+    if layout.name_token_strings(case['src']) != layout.name_token_strings(case['variant']):
+        a, b = (a[0], []), (b[0], [])
+    d = compare(a, b)
     if d:
         return [{'signature': d[0], 'case': case, 'detail': d[1]}]
     return []
